@@ -21,12 +21,10 @@ RANDOM_INITS = ["uniform_", "normal_", "xavier_uniform_", "xavier_normal_", "kai
 def gen_cases(tier, seed):
     rng = gen.rng_for(seed, "c15", tier)
     cases = []
-    reps = 1 if tier == "quick" else 60
+    reps = 3 if tier == "quick" else 60
     for rep in range(reps):
         for name in RANDOM_INITS + ["constant_", "ones_", "zeros_"]:
             for si, shp in enumerate(SHAPES):
-                if tier == "quick" and (si + len(name)) % 2:
-                    continue
                 c = {"init": name, "shape": shp, "dtype": ["float32", "float64"][(si + rep) % 2], "req": bool((si + rep) % 3 == 0),
                      "storage": ["plain", "transposed-view", "plain", "strided-view"][(si // 2 + rep + len(name)) % 4],
                      "seed": int(rng.integers(2 ** 31)), "np_scalar_args": bool((si + rep + len(name)) % 4 == 0),
@@ -49,16 +47,12 @@ def gen_cases(tier, seed):
         for ki, (nl_, a_) in enumerate([("relu", 1.0), ("relu", 0.2), ("tanh", 0.2), ("selu", 1.0), ("sigmoid", 0.2), ("linear", 1.0), ("conv2d", 0.2),
                                         ("leaky_relu", 0.0), ("leaky_relu", 0.2), ("leaky_relu", 1.0)]):
             for name in ("kaiming_uniform_", "kaiming_normal_"):
-                if tier == "quick" and (ki + len(name) + rep) % 2:
-                    continue
                 cases.append({"init": name, "shape": [[120, 90], [60, 30, 3, 3]][ki % 2], "dtype": ["float32", "float64"][(ki + rep) % 2], "req": False,
                               "seed": int(rng.integers(2 ** 31)), "storage": "plain",
                               "args": {"a": a_, "mode": ["fan_in", "fan_out"][(ki + rep) % 2], "nonlinearity": nl_}})
         # small tensors with an odd fan_in + fan_out (the formulas are exact there too): many fills pooled into one sample
         for name in ("xavier_uniform_", "xavier_normal_", "kaiming_uniform_", "kaiming_normal_", "uniform_", "normal_"):
             for shp in ([3, 4], [10, 1], [4, 3, 3], [2, 1, 3, 3], [5, 2]):
-                if tier == "quick" and (len(name) + shp[0] + rep) % 3:
-                    continue
                 c = {"init": name, "shape": shp, "dtype": ["float32", "float64"][(shp[0] + rep) % 2], "req": False, "seed": int(rng.integers(2 ** 31)),
                      "pool": 20000 // int(np.prod(shp)) + 1, "storage": "plain"}
                 if name == "uniform_":
@@ -70,7 +64,7 @@ def gen_cases(tier, seed):
                 else:
                     c["args"] = {"a": float(rng.choice([0, 0.2])), "mode": ["fan_in", "fan_out"][int(rng.integers(2))], "nonlinearity": "leaky_relu"}
                 cases.append(c)
-        for layer in ("Linear", "Conv1d", "Conv2d", "Linear-fan1", "Conv1d-fan1", "Conv2d-nonsquare", "Conv1d-dilated", "Conv2d-dilated-strided"):
+        for layer in ("Linear", "Neuron", "Linear-wide", "Conv1d", "Conv2d", "Linear-fan1", "Conv1d-fan1", "Conv2d-nonsquare", "Conv1d-dilated", "Conv2d-dilated-strided"):
             cases.append({"init": "layer:" + layer, "seed": int(rng.integers(2 ** 31)), "bias": True})
     cases.append({"init": "tables", "seed": 0})
     for shp in ([3], [7, 2], [2, 2, 2]):
@@ -200,6 +194,10 @@ def run_case(ns, ctx, c):
         for _ in range(reps):
             if layer == "Linear":
                 m = ns.nn.Linear(50, 20); fan = 50
+            elif layer == "Neuron":
+                m = ns.nn.Neuron(40); fan = 40
+            elif layer == "Linear-wide":
+                m = ns.nn.Linear(4, 300); fan = 4
             elif layer == "Conv1d":
                 m = ns.nn.Conv1d(6, 10, 5); fan = 30
             elif layer == "Linear-fan1":
@@ -244,16 +242,17 @@ def run_case(ns, ctx, c):
     npsc = (lambda v: np.float64(v)) if c.get("np_scalar_args") else (lambda v: v)      # hyper-parameters given as NumPy scalars
 
     def call():
+        kwform = c["seed"] % 2 == 1            # documented parameters by keyword or by position
         if name == "uniform_":
-            return fn(t, npsc(a["a"]), npsc(a["b"]))
+            return fn(t, a=npsc(a["a"]), b=npsc(a["b"])) if kwform else fn(t, npsc(a["a"]), npsc(a["b"]))
         if name == "normal_":
-            return fn(t, npsc(a["mean"]), npsc(a["std"]))
+            return fn(t, mean=npsc(a["mean"]), std=npsc(a["std"])) if kwform else fn(t, npsc(a["mean"]), npsc(a["std"]))
         if name == "constant_":
-            return fn(t, npsc(a["val"]))
+            return fn(t, val=npsc(a["val"])) if kwform else fn(t, npsc(a["val"]))
         if name.startswith("xavier"):
-            return fn(t, gain=npsc(a["gain"]))
+            return fn(t, gain=npsc(a["gain"])) if kwform else fn(t, npsc(a["gain"]))
         if name.startswith("kaiming"):
-            return fn(t, a=a["a"], mode=a["mode"], nonlinearity=a["nonlinearity"])
+            return fn(t, a=a["a"], mode=a["mode"], nonlinearity=a["nonlinearity"]) if kwform else fn(t, a["a"], a["mode"], a["nonlinearity"])
         return fn(t)
     try:
         if c.get("under_no_grad"):
